@@ -14,7 +14,7 @@ DumpOK(e) ==
   \/ e.out \in ErrorClasses
   \/ /\ e.out = "written"
      /\ e.readable                                   \* a file IOData wrote is never one it cannot read back
-     /\ e.nuclei_same /\ e.orbitals_same /\ e.occs_same /\ e.energies_same /\ e.spin_same /\ e.density_same
+     /\ e.nuclei_same /\ e.orbitals_same /\ e.occs_same /\ e.energies_same /\ e.spin_same /\ e.density_same /\ e.irreps_same
      /\ e.independent_same                           \* the independent reader of the file sees the same orbitals
      /\ (e.converted => (e.allow /\ e.warned))
 \* C05: vendor-encoded files load to the true wavefunction with a warning naming an admissible correction; standard files
